@@ -870,6 +870,14 @@ class Context:
             # Number.parseFloat is the global parseFloat
             return self._global_parsefloat(*args)
 
+        num_constructor.set("MAX_VALUE", 1.7976931348623157e308)
+        num_constructor.set("MIN_VALUE", 5e-324)
+        num_constructor.set("EPSILON", 2.0**-52)
+        num_constructor.set("MAX_SAFE_INTEGER", 2**53 - 1)
+        num_constructor.set("MIN_SAFE_INTEGER", -(2**53 - 1))
+        num_constructor.set("POSITIVE_INFINITY", float("inf"))
+        num_constructor.set("NEGATIVE_INFINITY", float("-inf"))
+        num_constructor.set("NaN", float("nan"))
         num_constructor.set("isNaN", isNaN_fn)
         num_constructor.set("isFinite", isFinite_fn)
         num_constructor.set("isInteger", isInteger_fn)
